@@ -13,7 +13,7 @@ pub fn def() -> PropDef {
         predicate,
         nontrivial,
         functional: true,
-        rule: "context operation sequences (define/redefine, open scope, close scope, register function) over 3 names and up to 3 scope levels, every sequence of length <= 5 (quick) / <= 7 (thorough) exhaustively and random longer ones, with a lookup of every name and a probe of every function name after each step; the predicate replays the sequence against an independent stack-of-maps reference; plus programs nesting up to 3 macros whose iteration variables come from a 3-name pool that also names context variables and functions, with lookups after the macro; non-trivial = at least one scope is opened or a name is redefined (histories) / a macro is present (programs); distinct = distinct case text",
+        rule: "context operation sequences (define/redefine, a definition whose conversion is refused, open scope, close scope, register function) over 3 names and up to 3 scope levels, every sequence of length <= 4 (quick) / <= 6 (thorough) exhaustively and random longer ones, with a lookup of every name and a probe of every function name after each step; the predicate replays the sequence against an independent stack-of-maps reference; plus programs nesting up to 3 macros whose iteration variables come from a 3-name pool that also names context variables and functions, with lookups after the macro; non-trivial = at least one scope is opened or a name is redefined (histories) / a macro is present (programs); distinct = distinct case text",
         post: super::no_post,
         exhaustive_note: "operation sequences up to the stated length are enumerated completely",
     }
@@ -22,6 +22,8 @@ pub fn def() -> PropDef {
 #[derive(Clone, Debug, PartialEq)]
 enum Op {
     Def(usize, i64),
+    /// a definition the conversion refuses (`add_variable` returns an error): no binding changes
+    BadDef(usize),
     Push,
     Pop,
     Fn(usize),
@@ -58,6 +60,7 @@ fn render(ops: &[Op]) -> (String, String) {
                     top.push((*n, *v));
                 }
             }
+            Op::BadDef(n) => payload.push(format!("(baddef {})", hex(NAMES[*n].as_bytes()))),
             Op::Push => {
                 payload.push("(push)".into());
                 stack.push(vec![]);
@@ -100,6 +103,7 @@ fn enumerate(len: usize, depth: usize, prefix: &mut Vec<Op>, counter: &mut i64, 
         cands.push(Op::Def(n, *counter % 7));
     }
     cands.push(Op::Def(2, 9));
+    cands.push(Op::BadDef((*counter % 2) as usize));
     if depth < 3 {
         cands.push(Op::Push);
     }
@@ -182,7 +186,8 @@ pub fn generate(tier: Tier, rng: &mut Rng) -> Vec<Case> {
         let mut depth = 1;
         let mut ops = vec![];
         for _ in 0..len {
-            let op = match rng.below(8) {
+            let op = match rng.below(9) {
+                8 => Op::BadDef(rng.below(3) as usize),
                 0..=3 => Op::Def(rng.below(3) as usize, rng.range(0, 9)),
                 4 | 5 if depth < 3 => {
                     depth += 1;
